@@ -402,6 +402,10 @@ macro_rules! impl_nio_read {
                     }
                     let error_kind = std::io::Error::last_os_error().kind();
                     if error_kind == std::io::ErrorKind::WouldBlock {
+                        if !blocking {
+                            // the caller asked for non-blocking semantics: report EAGAIN
+                            break;
+                        }
                         //wait read event
                         left_time = start_time
                             .saturating_add($crate::syscall::recv_time_limit($fd))
@@ -489,6 +493,10 @@ macro_rules! impl_nio_read_buf {
                     }
                     let error_kind = std::io::Error::last_os_error().kind();
                     if error_kind == std::io::ErrorKind::WouldBlock {
+                        if !blocking {
+                            // the caller asked for non-blocking semantics: report EAGAIN
+                            break;
+                        }
                         //wait read event
                         left_time = start_time
                             .saturating_add($crate::syscall::recv_time_limit($fd))
@@ -618,6 +626,16 @@ macro_rules! impl_nio_read_iovec {
                         }
                         let error_kind = std::io::Error::last_os_error().kind();
                         if error_kind == std::io::ErrorKind::WouldBlock {
+                            if !blocking {
+                                // the caller asked for non-blocking semantics: report what
+                                // was moved so far, or EAGAIN
+                                std::mem::forget(vec);
+                                if received > 0 {
+                                    $crate::syscall::reset_errno();
+                                    return received.try_into().expect("received overflow");
+                                }
+                                return r;
+                            }
                             //wait read event
                             left_time = start_time
                                 .saturating_add($crate::syscall::recv_time_limit($fd))
@@ -733,6 +751,10 @@ macro_rules! impl_nio_write_buf {
                     }
                     let error_kind = std::io::Error::last_os_error().kind();
                     if error_kind == std::io::ErrorKind::WouldBlock {
+                        if !blocking {
+                            // the caller asked for non-blocking semantics: report EAGAIN
+                            break;
+                        }
                         //wait write event
                         left_time = start_time
                             .saturating_add($crate::syscall::send_time_limit($fd))
@@ -854,6 +876,16 @@ macro_rules! impl_nio_write_iovec {
                         }
                         let error_kind = std::io::Error::last_os_error().kind();
                         if error_kind == std::io::ErrorKind::WouldBlock {
+                            if !blocking {
+                                // the caller asked for non-blocking semantics: report what
+                                // was moved so far, or EAGAIN
+                                std::mem::forget(vec);
+                                if sent > 0 {
+                                    $crate::syscall::reset_errno();
+                                    return sent.try_into().expect("sent overflow");
+                                }
+                                return r;
+                            }
                             //wait write event
                             left_time = start_time
                                 .saturating_add($crate::syscall::send_time_limit($fd))
